@@ -53,6 +53,8 @@ def misuse(case):
                        ('method set to multicomplex on n=3', lambda: _set(nd.Derivative(np.exp, method='central', n=3), method='multicomplex')(1.0)),
                        ('Residue order<=pole_order', lambda: Residue(np.sin, order=2, pole_order=2)),
                        ('unknown path', lambda: CStepGenerator(path='xyz')),
+                       ('n=0, function not vectorised', lambda: nd.Derivative(lambda x: np.sum(x ** 2), n=0)(np.array([1.0, 2.0, 3.0]))),
+                       ('fd_derivative with fewer samples than abscissas', lambda: __import__('numdifftools.fornberg', fromlist=['x']).fd_derivative(np.ones(10), np.arange(12.0), 1)),
                        ('fd_weights with n == len(x)', lambda: __import__('numdifftools.fornberg', fromlist=['x']).fd_weights(np.array([0.0, 1.0, 2.0]), 0.5, 3)),
                        ('fd_weights_all with n == len(x)', lambda: __import__('numdifftools.fornberg', fromlist=['x']).fd_weights_all(np.array([0.0, 1.0]), 0.5, 2)),
                        ('unknown path "straight"', lambda: CStepGenerator(path='straight')),
